@@ -44,35 +44,104 @@ def _tensor(seqs, width, batch_first):
     return t if batch_first else t.t().contiguous()
 
 
-def _call(case, ref, hyp, norm=None):
-    """ref, hyp: tensors already in the case's layout.  Returns a float tensor."""
+# ---- robustness dimensions: memory layout, entry point, call history, aliasing ---------------------
+LAYOUTS = ("contig", "t", "offset", "step", "expand")
+
+
+def _tensor_l(seqs, width, batch_first, layout, junk=0):
+    """the same logical tensor as _tensor, in another memory layout (all legal inputs):
+    't' = storage of the other batch layout, viewed transposed; 'offset' = interior slice of a larger buffer (storage
+    offset, padded rows); 'step' = every 2nd row / 3rd column of a larger buffer; 'expand' = one sequence broadcast
+    over the batch with stride 0 (only when all sequences are equal)"""
+    n = len(seqs)
+    if layout in (None, "contig") or n == 0 or width == 0:
+        return _tensor(seqs, width, batch_first)
+    base = torch.tensor(seqs, dtype=torch.long).reshape(n, width)
+    want = base if batch_first else base.t()
+    rows, cols = want.shape
+    if layout == "t":
+        return want.t().contiguous().t()
+    if layout == "offset":
+        buf = torch.full((rows + 2, cols + 3), junk, dtype=torch.long)
+        buf[1:1 + rows, 2:2 + cols] = want
+        return buf[1:1 + rows, 2:2 + cols]
+    if layout == "step":
+        buf = torch.full((2 * rows + 1, 3 * cols + 1), junk, dtype=torch.long)
+        buf[1::2, 1::3] = want
+        return buf[1::2, 1::3]
+    if layout == "expand":
+        e = torch.tensor(seqs[0], dtype=torch.long).reshape(1, width).expand(n, width)
+        return e if batch_first else e.t()
+    raise ValueError(layout)
+
+
+# the documented defaults of the four public entry points (signature / docstring of the pinned version); an option
+# that a 'sparse' call leaves out must behave as if this value had been passed
+DEFAULTS = {
+    "ed": dict(eos=None, include_eos=False, norm=False, batch_first=False, ins_cost=1.0, del_cost=1.0, sub_cost=1.0,
+               warn=True),
+    "prefix": dict(eos=None, include_eos=True, norm=False, batch_first=False, ins_cost=1.0, del_cost=1.0,
+                   sub_cost=1.0, padding=-100, exclude_last=False, warn=True),
+}
+
+
+def _scale(case):
+    return case.get("scale", SCALE)
+
+
+def _opts(case, norm):
+    """every option of the call, in positional order"""
+    ci, cd, cs = (k / _scale(case) for k in case["costs"])
+    o = dict(eos=case["eos"], include_eos=case["include_eos"], norm=norm, batch_first=case["batch_first"],
+             ins_cost=ci, del_cost=cd, sub_cost=cs)
+    if case["api"] == "prefix":
+        o.update(padding=case["padding"], exclude_last=case["exclude_last"])
+    o["warn"] = case["warn"]
+    return o
+
+
+def sparse_kwargs(opts, defaults, keep):
+    """only the options that differ from the documented default (or are listed in keep)"""
+    return {k: v for k, v in opts.items()
+            if k in keep or not (v == defaults[k] and type(v) is type(defaults[k]))}
+
+
+def _fn(case, norm=None):
+    """the callable (ref, hyp) -> tensor of the case's entry point"""
     import pydrobert.torch.functional as F
     import pydrobert.torch.modules as M
 
-    ci, cd, cs = (k / SCALE for k in case["costs"])
     norm = case["norm"] if norm is None else norm
+    o = _opts(case, norm)
+    Fn = F.edit_distance if case["api"] == "ed" else F.prefix_edit_distances
+    Mod = M.EditDistance if case["api"] == "ed" else M.PrefixEditDistances
+    entry = case.get("entry")
+    if entry == "sparse":
+        kw = sparse_kwargs(o, DEFAULTS[case["api"]], case.get("keep", ()))
+        if case["module"]:
+            return Mod(**kw)
+        return lambda ref, hyp: Fn(ref, hyp, **kw)
+    if entry == "script":
+        return torch.jit.script(Mod(*o.values()))
+    if entry == "trace":
+        ex = torch.full((1, 1), 0 if case["eos"] is None else case["eos"], dtype=torch.long)
+        return torch.jit.trace(Mod(*o.values()), (ex, ex))
+    if entry == "script_fn":
+        f = torch.jit.script(Fn)
+        return lambda ref, hyp: f(ref, hyp, *o.values())
+    if case["module"]:
+        return Mod(*o.values())
+    if case.get("kw"):
+        rev = dict(reversed(list(o.items())))
+        return lambda ref, hyp: Fn(hyp=hyp, ref=ref, **rev)
+    return lambda ref, hyp: Fn(ref, hyp, *o.values())
+
+
+def _call(case, ref, hyp, norm=None):
+    """ref, hyp: tensors already in the case's layout.  Returns a float tensor."""
     with warnings.catch_warnings():
         warnings.simplefilter("ignore")
-        if case["api"] == "ed":
-            if case["module"]:
-                return M.EditDistance(case["eos"], case["include_eos"], norm, case["batch_first"], ci, cd, cs,
-                                      case["warn"])(ref, hyp)
-            if case.get("kw"):
-                return F.edit_distance(hyp=hyp, ref=ref, warn=case["warn"], sub_cost=cs, del_cost=cd, ins_cost=ci,
-                                       batch_first=case["batch_first"], norm=norm, include_eos=case["include_eos"],
-                                       eos=case["eos"])
-            return F.edit_distance(ref, hyp, case["eos"], case["include_eos"], norm, case["batch_first"], ci, cd, cs,
-                                   case["warn"])
-        if case["module"]:
-            return M.PrefixEditDistances(case["eos"], case["include_eos"], norm, case["batch_first"], ci, cd, cs,
-                                         case["padding"], case["exclude_last"], case["warn"])(ref, hyp)
-        if case.get("kw"):
-            return F.prefix_edit_distances(hyp=hyp, ref=ref, warn=case["warn"], exclude_last=case["exclude_last"],
-                                           padding=case["padding"], sub_cost=cs, del_cost=cd, ins_cost=ci,
-                                           batch_first=case["batch_first"], norm=norm,
-                                           include_eos=case["include_eos"], eos=case["eos"])
-        return F.prefix_edit_distances(ref, hyp, case["eos"], case["include_eos"], norm, case["batch_first"], ci, cd,
-                                       cs, case["padding"], case["exclude_last"], case["warn"])
+        return _fn(case, norm)(ref, hyp)
 
 
 def _canon(t):
@@ -89,12 +158,44 @@ def _canon(t):
     return [[f(x) for x in row] for row in t.tolist()]
 
 
+def call_with_history(case, fn, args, seq_dims):
+    """Runs fn(*args) the way the case's 'history' / 'entry' fields ask for and returns (out, flags).
+    history: the very same callable and the very same tensor objects are first used on other contents (every sequence
+    reversed), then overwritten in place with the real contents.  jit entry points are called three times (profiling
+    runs, then the optimised graph) and must return the same tensor each time."""
+    flags = {}
+    orig = [a.clone() for a in args]
+    with warnings.catch_warnings():
+        warnings.simplefilter("ignore")
+        if case.get("history"):
+            for a, o, d in zip(args, orig, seq_dims):
+                a.copy_(o.flip(d))
+            fn(*args)
+            for a, o in zip(args, orig):
+                a.copy_(o)
+        out = fn(*args)
+        if case.get("entry") in ("script", "trace", "script_fn"):
+            for _ in range(2):
+                again = fn(*args)
+                if again.shape != out.shape or not torch.equal(again, out):
+                    flags["unstable"] = "a repeated call of the same compiled callable on the same input differs"
+    return out, flags
+
+
 def run_impl(case, norm=None):
     N, R, H = _dims(case)
     try:
-        out = _call(case, _tensor(case["ref"], R, case["batch_first"]), _tensor(case["hyp"], H, case["batch_first"]),
-                    norm)
-        return {"shape": list(out.shape), "dtype": str(out.dtype), "val": _canon(out)}
+        bf = case["batch_first"]
+        lay = case.get("layout") or ("contig", "contig")
+        junk = 0 if case["eos"] is None else case["eos"]
+        ref = _tensor_l(case["ref"], R, bf, lay[0], junk)
+        hyp = ref if case.get("alias") else _tensor_l(case["hyp"], H, bf, lay[1], junk)
+        fn = _fn(case, norm)
+        sd = 1 if bf else 0
+        out, flags = call_with_history(case, fn, [ref, hyp], [sd, sd])
+        res = {"shape": list(out.shape), "dtype": str(out.dtype), "val": _canon(out)}
+        res.update(flags)
+        return res
     except Exception as e:  # no exception is a legal outcome inside the input space
         return {"exc": exc_kind(e), "msg": str(e)[:200]}
 
@@ -128,22 +229,88 @@ def _shape_ok(case, out):
     return out["shape"] == ([N, T] if case["batch_first"] else [T, N])
 
 
+def _exact_scale(case):
+    sc = _scale(case)
+    return sc & (sc - 1) == 0  # a power of two: costs k/scale are dyadic, every float32 step is exact (regime E)
+
+
+SNAP_TOL = Fraction(1, 100000)
+
+
+def _snap(case, out):
+    """Costs off the dyadic grid (scale 3, 7, 10: 0.1, 0.3, 1/3, ...; only generated with norm=False): every float32
+    addition / multiplication rounds, so a distance is only within ~1e-6 relative of a multiple of 1/scale.  Entries
+    that are distances (not padding) are moved to the nearest multiple of 1/scale if that is within 1e-5 relative -
+    distinct multiples differ by more than 1e-3 relative here - and left alone otherwise (the exact comparison inside
+    Coq then fails).  Returns the output with the canonicalised values."""
+    if _exact_scale(case) or "exc" in out or out["val"] == "nonfinite" or case["norm"]:
+        return out
+    sc = _scale(case)
+
+    def snap(x):
+        fr = Fraction(x)
+        g = Fraction(round(fr * sc), sc)
+        if abs(g - fr) <= SNAP_TOL * abs(fr):
+            return f"{g.numerator}/{g.denominator}"
+        return x
+
+    N, R, H = _dims(case)
+    if case["api"] == "ed":
+        return dict(out, val=[snap(x) for x in out["val"]])
+    val = [list(row) for row in out["val"]]
+    for n in range(N):
+        hl = len(_cut(case["hyp"][n], case["eos"], case["include_eos"]))
+        for k in range(min(hl + (0 if case["exclude_last"] else 1), H + 1)):
+            try:
+                if case["batch_first"]:
+                    val[n][k] = snap(val[n][k])
+                else:
+                    val[k][n] = snap(val[k][n])
+            except IndexError:
+                pass
+    return dict(out, val=val)
+
+
+def _usable(case, out):
+    return not ("exc" in out or out["val"] == "nonfinite" or not _shape_ok(case, out) or out["dtype"] != "torch.float32"
+                or "unstable" in out)
+
+
 def model_term(case, out):
-    if "exc" in out or out["val"] == "nonfinite" or not _shape_ok(case, out) or out["dtype"] != "torch.float32":
+    if not _usable(case, out):
         return "false"
+    if case.get("long"):
+        return "(" + " && ".join(pair_term(case, out, n) for n in range(len(case["ref"]))) + ")"
+    out = _snap(case, out)
     N, R, H = _dims(case)
     ref, hyp = _mat(case["ref"], R, case["batch_first"]), _mat(case["hyp"], H, case["batch_first"])
     if case["api"] == "ed":
         obs = cl([_q(x) for x in out["val"]])
-        return f"check_ed {_cfg(case)} {cz(SCALE)} {cn(N)} {ref} {hyp} {obs}"
+        return f"check_ed {_cfg(case)} {cz(_scale(case))} {cn(N)} {ref} {hyp} {obs}"
     obs = cl([cl([_q(x) for x in row]) for row in out["val"]])
-    return f"check_prefix {_cfg(case)} {cz(SCALE)} {cn(N)} {ref} {hyp} {obs}"
+    return f"check_prefix {_cfg(case)} {cz(_scale(case))} {cn(N)} {ref} {hyp} {obs}"
+
+
+def pair_term(case, out, n):
+    """Pair n of a batch, judged by the same check_ed / check_prefix term on the canonicalised logical input: the pair
+    alone (N = 1, batch-first) with its reference column cut right after its first eos.  By c01_post_eos_irrelevant and
+    c01_batch_pointwise the model's value for the pair is the same as inside the padded batch; the model's cost is cubic
+    in the padded reference width, so this is how batches with references longer than 256 are judged."""
+    r, h = list(case["ref"][n]), list(case["hyp"][n])
+    if case["eos"] is not None and case["eos"] in r:
+        r = r[: r.index(case["eos"]) + 1]
+    cfg = _cfg(dict(case, batch_first=True))
+    col = _col_of(case, out, n)
+    if case["api"] == "ed":
+        return f"check_ed {cfg} {cz(_scale(case))} 1 {cl([clz(r)])} {cl([clz(h)])} {cl([_q(col[0])])}"
+    return f"check_prefix {cfg} {cz(_scale(case))} 1 {cl([clz(r)])} {cl([clz(h)])} {cl([cl([_q(x) for x in col])])}"
 
 
 def spec_term(case, out):
     """Judge the implementation's output by Spec.v alone (lev on the denoted sequences), pair by pair."""
-    if "exc" in out or out["val"] == "nonfinite" or not _shape_ok(case, out):
+    if "exc" in out or out["val"] == "nonfinite" or not _shape_ok(case, out) or "unstable" in out:
         return "false"
+    out = _snap(case, out)
     N, R, H = _dims(case)
     ki, kd, ks = case["costs"]
     eos = co(None if case["eos"] is None else cz(case["eos"]))
@@ -152,10 +319,10 @@ def spec_term(case, out):
     for n in range(N):
         r, h = clz(case["ref"][n]), clz(case["hyp"][n])
         if case["api"] == "ed":
-            parts.append(f"spec_ed_okb {common} {cz(SCALE)} {r} {h} {_q(out['val'][n])}")
+            parts.append(f"spec_ed_okb {common} {cz(_scale(case))} {r} {h} {_q(out['val'][n])}")
         else:
             colv = out["val"][n] if case["batch_first"] else [row[n] for row in out["val"]]
-            parts.append(f"spec_prefix_okb {common} {cb(case['exclude_last'])} {cz(case['padding'])} {cz(SCALE)} "
+            parts.append(f"spec_prefix_okb {common} {cb(case['exclude_last'])} {cz(case['padding'])} {cz(_scale(case))} "
                          f"{r} {h} {cl([_q(x) for x in colv])}")
     return "(" + " && ".join(parts or ["true"]) + ")"
 
@@ -194,6 +361,14 @@ def in_space(case):
             return False
         if H == 0 and case["api"] == "prefix" and case["exclude_last"]:
             return False
+    if case.get("alias") and (case["ref"] != case["hyp"]):
+        return False  # the same tensor object is handed over for both arguments
+    lay = case.get("layout") or ("contig", "contig")
+    for which, l in zip(("ref", "hyp"), lay):
+        if l == "expand" and (any(x != case[which][0] for x in case[which]) or case.get("history")):
+            return False  # a stride-0 broadcast denotes equal sequences and cannot be overwritten in place
+    if not _exact_scale(case) and case["norm"]:
+        return False  # off-grid costs are only compared un-normalised (see _snap)
     return all(k > 0 for k in case["costs"])
 
 
@@ -394,6 +569,210 @@ def gen_zero_width(chk, n):
                           costs=[rng.randint(1, 8) for _ in range(3)], padding=-100, warn=False, stream="zero-width"))
     return cases
 
+# ---- robustness streams (notes/AUDIT_GUIDE.md) -------------------------------------------------------
+# ids that only differ beyond float32 / float64 precision, the documented padding value, int32 / int64 extremes
+EXOTIC_IDS = [2 ** 24, 2 ** 24 + 1, 2 ** 53, 2 ** 53 + 1, -2 ** 62, 2 ** 62, -2 ** 62 - 1, -100, -1, 0, 2 ** 31 - 1,
+              2 ** 31, -2 ** 31]
+ENTRIES = [None, None, "script", "script", "script_fn", "trace", "sparse"]
+
+
+def _rand_nonuniform(rng):
+    while True:
+        c = [rng.randint(1, 12) for _ in range(3)]
+        if len(set(c)) > 1:
+            return c
+
+
+def _rand_costs(rng, p_uniform=0.3):
+    if rng.random() < p_uniform:
+        k = rng.randint(1, 12)
+        return [k, k, k]
+    return _rand_nonuniform(rng)
+
+
+def gen_eos_mix(chk, n):
+    """batch interaction of the include_eos length fix-up: inside one batch every combination of (reference has eos,
+    hypothesis has eos) - always some hypothesis WITHOUT eos next to another pair whose reference lacks eos while its
+    hypothesis has one - so that a fix-up driven by the wrong mask / by any() instead of the element shows"""
+    rng = chk.rng
+    cases = []
+    for _ in range(n):
+        V = rng.randint(1, 3)
+        eos = rng.choice([V, V + 2, -1, 0])
+        alphabet = [a + (1 if eos == 0 else 0) for a in range(V)]
+        N = rng.randint(2, 5)
+        R, H = rng.randint(1, 6), rng.randint(1, 6)
+        kinds = [(True, False), (False, True)] + [(rng.random() < 0.5, rng.random() < 0.5) for _ in range(N - 2)]
+        rng.shuffle(kinds)
+        ref = [_rand_seq(rng, R, alphabet, eos, p_noeos=0.0 if k[0] else 1.0) for k in kinds]
+        hyp = []
+        for r, k in zip(ref, kinds):
+            if k[1]:
+                h = _mutate(rng, r, alphabet, eos, H) if rng.random() < 0.5 else _rand_seq(rng, H, alphabet, eos, 0.0)
+                if eos not in h:
+                    h[rng.randrange(H)] = eos
+            else:
+                h = [rng.choice(alphabet) for _ in range(H)]
+            hyp.append(h)
+        api = rng.choice(["ed", "prefix", "prefix"])
+        cases.append(dict(api=api, module=rng.random() < 0.3, ref=ref, hyp=hyp, eos=eos,
+                          include_eos=rng.random() < 0.9, norm=rng.random() < 0.3, batch_first=rng.random() < 0.5,
+                          exclude_last=(api == "prefix" and rng.random() < 0.5), costs=_rand_costs(rng),
+                          padding=rng.choice(PADS), warn=rng.random() < 0.2, kw=rng.random() < 0.5, stream="eos-mix"))
+    return cases
+
+
+def _sparse_fields(rng, api, defaults):
+    """option values that sit on the documented default with probability ~0.6 each, plus the list of default-valued
+    options that are passed explicitly all the same"""
+    d = defaults[api]
+    f = {}
+    for k in ("include_eos", "norm", "batch_first", "exclude_last"):
+        if k in d:
+            f[k] = d[k] if rng.random() < 0.6 else not d[k]
+    f.setdefault("exclude_last", False)
+    f["padding"] = d.get("padding", -100) if rng.random() < 0.6 else rng.choice([-1, 0, 7, -3])
+    f["costs"] = [4, 4, 4] if rng.random() < 0.5 else _rand_costs(rng, 0.2)
+    f["warn"] = rng.random() < 0.7
+    f["keep"] = [k for k in d if rng.random() < 0.2]
+    return f
+
+
+def gen_sparse(chk, n):
+    """calls that leave out every option sitting on its documented default (functional: keywords, module: constructor
+    keywords): the defaults themselves are part of the entry points (include_eos defaults to True in the prefix forms,
+    to False in edit_distance).  The eos sits before the last row most of the time, so include_eos is observable."""
+    rng = chk.rng
+    cases = []
+    for _ in range(n):
+        V = rng.randint(1, 3)
+        eos = rng.choice([None, V, V, -1, 0])
+        alphabet = [a + (1 if eos == 0 else 0) for a in range(V)]
+        N, R, H = rng.randint(1, 4), rng.randint(1, 6), rng.randint(2, 6)
+        ref = [_rand_seq(rng, R, alphabet, eos, 0.15) for _ in range(N)]
+        hyp = [(_mutate(rng, r, alphabet, eos, H) if rng.random() < 0.4 else _rand_seq(rng, H, alphabet, eos, 0.15))
+               for r in ref]
+        api = rng.choice(["ed", "prefix", "prefix"])
+        cases.append(dict(api=api, module=rng.random() < 0.5, kw=False, ref=ref, hyp=hyp, eos=eos, entry="sparse",
+                          stream="sparse-defaults", **_sparse_fields(rng, api, DEFAULTS)))
+    return cases
+
+
+def _decorate(rng, case, p_exotic=0.3):
+    """memory layout, entry point, call history, argument aliasing, unusual ids - on top of an ordinary case"""
+    N, R, H = _dims(case)
+    if rng.random() < p_exotic:  # re-label all tokens (and eos) injectively with unusual ids
+        toks = sorted({t for s_ in case["ref"] + case["hyp"] for t in s_} | ({case["eos"]} if case["eos"] is not None else set()))
+        ids = rng.sample(EXOTIC_IDS, len(toks)) if len(toks) <= len(EXOTIC_IDS) else toks
+        m = dict(zip(toks, ids))
+        case["ref"] = [[m[t] for t in s_] for s_ in case["ref"]]
+        case["hyp"] = [[m[t] for t in s_] for s_ in case["hyp"]]
+        if case["eos"] is not None:
+            case["eos"] = m[case["eos"]]
+        case["ids"] = "exotic"
+    u = rng.random()
+    if u < 0.12:
+        case["hyp"] = [list(s_) for s_ in case["ref"]]
+        case["alias"] = True
+    elif u < 0.24:
+        case["ref"] = [list(case["ref"][0]) for _ in range(N)]  # one reference for the whole batch, stride 0
+        case["layout"] = ["expand", rng.choice(LAYOUTS[:4])]
+    if "layout" not in case:
+        case["layout"] = [rng.choice(LAYOUTS[:4]), rng.choice(LAYOUTS[:4])]
+    case["entry"] = rng.choice(ENTRIES)
+    if case["entry"] == "sparse":
+        case["keep"] = [k for k in DEFAULTS[case["api"]] if rng.random() < 0.3]
+    case["history"] = rng.random() < 0.4 and "expand" not in case["layout"]
+    return case
+
+
+def gen_entry_layout(chk, n):
+    rng = chk.rng
+    cases = []
+    for c in gen_random(chk, n):
+        c = _decorate(rng, c)
+        c["stream"] = "entry-layout"
+        cases.append(c)
+    return cases
+
+
+def gen_numeric(chk, n):
+    """cost magnitudes: dyadic costs scaled by 2^10..2^20 or 2^-8..2^-14 (still exact in float32), three costs 12 binary
+    orders apart, and costs off the dyadic grid (scale 3, 7, 10: 0.1, 0.3, 1/3, 1.1 ...; un-normalised, see _snap)"""
+    rng = chk.rng
+    cases = []
+    for c in gen_random(chk, n):
+        kind = rng.choice(["big", "small", "spread", "offgrid", "offgrid"])
+        uni = len(set(c["costs"])) == 1
+        if kind == "big":
+            e = rng.choice([10, 16, 20])
+            c["costs"] = [k * 2 ** e for k in c["costs"]]
+        elif kind == "small":
+            c["scale"] = SCALE * 2 ** rng.choice([8, 14])
+        elif kind == "spread":
+            c["scale"] = SCALE * 2 ** 6
+            c["costs"] = [k * 2 ** (0 if uni else rng.choice([0, 6, 12])) for k in c["costs"]]
+        else:
+            c["scale"] = rng.choice([3, 7, 10, 10])
+            c["norm"] = False
+        c["numeric"] = kind
+        c["stream"] = "numeric"
+        cases.append(c)
+    return cases
+
+
+def gen_long(chk, n_ref, n_hyp, big=()):
+    """size-dependent code paths: padded reference / hypothesis widths around and above 256 (255, 256, 257, ...), mostly
+    non-uniform costs.  long-ref: one pair whose reference really is that long (hypothesis of 1-3 tokens), batched with
+    short pairs (eos early, garbage up to the padded width); judged pair by pair on the canonicalised input
+    (pair_term).  'big': widths 513 / 1025 with short references only.  long-hyp: the same for the hypothesis side,
+    judged by the ordinary whole-batch term."""
+    rng = chk.rng
+    cases = []
+    sizes = [255, 256, 257, 257, 258, 260, 300]
+    for i in range(n_ref + len(big)):
+        R = big[i - n_ref] if i >= n_ref else sizes[i % len(sizes)] if i < len(sizes) else rng.choice(sizes)
+        alphabet = [0, 1, 2]
+        eos = rng.choice([None, 9, 9, 9, -1]) if i < n_ref else 9
+        H = rng.randint(1, 3) if i < n_ref else rng.randint(2, 5)
+        N = rng.randint(2, 3) if eos is not None else 1
+        ref, hyp = [], []
+        for n in range(N):
+            if n == 0 and i < n_ref:
+                L = R if eos is None else R - rng.randint(0, 3)
+                r = [rng.choice(alphabet) for _ in range(L)] + [eos] * (R - L)
+            else:
+                L = rng.randint(0, 6)
+                r = [rng.choice(alphabet) for _ in range(L)] + [eos] + [rng.choice(alphabet + [eos]) for _ in range(R - L - 1)]
+            ref.append(r)
+            hyp.append(_rand_seq(rng, H, alphabet, eos, 0.4))
+        api = rng.choice(["ed", "prefix"])
+        cases.append(dict(api=api, module=rng.random() < 0.3, kw=rng.random() < 0.5, ref=ref, hyp=hyp, eos=eos,
+                          include_eos=rng.random() < 0.5, norm=rng.random() < 0.3, batch_first=rng.random() < 0.5,
+                          exclude_last=(api == "prefix" and rng.random() < 0.5), costs=_rand_costs(rng, 0.15),
+                          padding=rng.choice(PADS), warn=False, long=True, stream="long-ref"))
+    for i in range(n_hyp):
+        H = sizes[i % len(sizes)] if i < len(sizes) else rng.choice(sizes)
+        alphabet = [0, 1, 2]
+        eos = rng.choice([None, 9, 9, -1])
+        R = rng.randint(1, 5)
+        N = 2
+        hyp = []
+        for n in range(N):
+            if n == 0 or eos is None:
+                L = H if eos is None else H - rng.randint(0, 3)
+                hyp.append([rng.choice(alphabet) for _ in range(L)] + [eos] * (H - L))
+            else:
+                L = rng.randint(0, 6)
+                hyp.append([rng.choice(alphabet) for _ in range(L)] + [eos] + [rng.choice(alphabet + [eos]) for _ in range(H - L - 1)])
+        ref = [_rand_seq(rng, R, alphabet, eos, 0.3) for _ in range(N)]
+        api = rng.choice(["ed", "prefix"])
+        cases.append(dict(api=api, module=rng.random() < 0.3, kw=rng.random() < 0.5, ref=ref, hyp=hyp, eos=eos,
+                          include_eos=rng.random() < 0.5, norm=rng.random() < 0.3, batch_first=rng.random() < 0.5,
+                          exclude_last=(api == "prefix" and rng.random() < 0.5), costs=_rand_costs(rng, 0.15),
+                          padding=rng.choice(PADS), warn=False, slow=True, stream="long-hyp"))
+    return cases
+
 
 def gen_cases(chk):
     cases = gen_exhaustive(chk)
@@ -404,6 +783,12 @@ def gen_cases(chk):
     thorough = chk.tier == "thorough"
     cases += gen_random(chk, 20000 if thorough else 1800)
     cases += gen_zero_width(chk, 400 if thorough else 60)
+    # robustness streams: drawn after the older streams so that those stay what they were for a given seed
+    cases += gen_eos_mix(chk, 1500 if thorough else 150)
+    cases += gen_sparse(chk, 1500 if thorough else 160)
+    cases += gen_entry_layout(chk, 3000 if thorough else 260)
+    cases += gen_numeric(chk, 1200 if thorough else 120)
+    cases += gen_long(chk, 28 if thorough else 5, 21 if thorough else 3, big=(513, 1025) if thorough else (513,))
     return [c for c in cases if in_space(c)]
 
 
@@ -425,6 +810,9 @@ def _fails(chk, case):
 
 def _cands(case):
     N, R, H = _dims(case)
+    for key in ("history", "alias", "entry", "layout", "ids"):
+        if case.get(key):
+            yield {k: v for k, v in case.items() if k != key}
     for n in range(N):
         if N > 1:
             yield dict(case, ref=case["ref"][:n] + case["ref"][n + 1:], hyp=case["hyp"][:n] + case["hyp"][n + 1:])
@@ -459,7 +847,8 @@ def judge(chk, case, out):
     spec_ok = coq_eval_bools(chk.workdir, IMPORTS, [spec_term(case, out)], tag="spec")[0]
     rec = {"case": case, "impl": out,
            "model": coq_eval_print(chk.workdir, IMPORTS, model_show(case)),
-           "scale": "model values are in quarter cost units: Cost v = v/4, Ratio n d = (n/4)/d, Lit z = z",
+           "scale": "model values are in cost units of 1/scale (scale = %d): Cost v = v/scale, Ratio n d = (n/scale)/d, "
+                    "Lit z = z" % _scale(case),
            "spec_accepts_impl": spec_ok,
            "correspondence": "corr:C01:edit_distance/prefix_edit_distances/EditDistance/PrefixEditDistances",
            "theorems_at_stake": THEOREMS}
@@ -468,21 +857,59 @@ def judge(chk, case, out):
                        "of the spec (lev on the sequences cut at eos)")
     elif "exc" in out:
         rec["what"] = f"implementation raised {out['exc']} on an input inside the property's input space"
+    elif "unstable" in out:
+        rec["what"] = out["unstable"]
     else:
         rec["what"] = ("reported edit distance / prefix table differs from the minimum edit cost (Spec.lev on the "
                        "sequences cut at the first eos), the padding rule or the output shape")
     return rec, spec_ok
 
 
+def judge_long(chk, case, out):
+    """A batch with a very long reference: Spec.lev (the textbook recursion) is not evaluable at that size, the verdict
+    is the model's (= the minimum edit cost by c01_edit_distance_correct / c01_prefix_edit_distances_correct), pair by
+    pair; the pairs alone - short references cut after their eos - are re-run as a second witness."""
+    N = len(case["ref"])
+    rec = {"case": case, "impl": out, "correspondence": "corr:C01:long-reference batch, pair by pair (pair_term)",
+           "theorems_at_stake": THEOREMS, "spec_accepts_impl": False}
+    if not _usable(case, out):
+        rec["what"] = ("implementation raised / returned a non-finite value or a wrong shape on a batch with a padded "
+                       "reference width of %d" % len(case["ref"][0]))
+        return rec
+    res = coq_eval_bools(chk.workdir, IMPORTS, [pair_term(case, out, n) for n in range(N)], shard=1, tag="longj")
+    rec["failing_pairs"] = [n for n, ok in enumerate(res) if not ok]
+    alone = []
+    for n in rec["failing_pairs"]:
+        r = list(case["ref"][n])
+        if case["eos"] is not None and case["eos"] in r and r.index(case["eos"]) < 16:
+            c1 = dict(case, ref=[r[: r.index(case["eos"]) + 1]], hyp=[case["hyp"][n]])
+            o1 = run_impl(c1)
+            alone.append({"pair": n, "case": _strip(c1), "impl_alone": o1, "impl_in_batch": _col_of(case, out, n)})
+    rec["pairs_alone"] = alone
+    rec["what"] = ("pair(s) %s of a batch whose padded reference width is %d differ from the minimum edit cost of the pair "
+                   "(model on the pair alone, reference cut after its eos)" % (rec["failing_pairs"], len(case["ref"][0])))
+    return rec
+
+
 def run(chk, cases=None):
-    chk.rule = ("case = one call of edit_distance / prefix_edit_distances (functional or module form) on a batch; ref/hyp "
-                "are stored as N sequences of the tensor widths R/H (padding and post-eos garbage included) and handed "
-                "over in the case's layout with costs k/4; every output entry is matched inside Coq against "
-                "PV.C01.Model.{edit_distance,prefix_edit_distances} on integer costs k (Cost: exact; Ratio: 2^-23 "
-                "bracket of the one float division; Lit: exact). non-trivial = some pair whose two sequences, cut at "
-                "the first eos, are both non-empty and differ")
-    chk.assumptions += ["costs are on the dyadic grid k/4 (k<=12), lengths <= 8: every float32 operation before the final "
-                        "division is exact (regime E)",
+    from concurrent.futures import ThreadPoolExecutor
+
+    chk.rule = ("case = one call of edit_distance / prefix_edit_distances (functional positional / keyword / defaults "
+                "left out, module, scripted or traced module, scripted function) on a batch; ref/hyp are stored as N "
+                "sequences of the tensor widths R/H (padding and post-eos garbage included) and handed over in the "
+                "case's batch layout and memory layout with costs k/scale (scale 4 unless stated); every output entry is "
+                "matched inside Coq against PV.C01.Model.{edit_distance,prefix_edit_distances} on integer costs k (Cost: "
+                "exact; Ratio: 2^-23 bracket of the one float division; Lit: exact). non-trivial = some pair whose two "
+                "sequences, cut at the first eos, are both non-empty and differ")
+    chk.assumptions += ["costs are on a dyadic grid k/2^m (k<=12 times one power of two, or spread over 12 binary orders), "
+                        "lengths <= 8 (<= 300 in the long streams, where values stay below 2^24 grid units): every float32 "
+                        "operation before the final division is exact (regime E)",
+                        "numeric stream, scale 3/7/10 (costs off the dyadic grid, un-normalised only): an output entry is "
+                        "moved to the nearest multiple of 1/scale when that is within 1e-5 relative (distinct multiples "
+                        "differ by > 1e-3 relative) and then compared exactly",
+                        "long-ref stream: each pair is judged on the canonicalised input (alone, reference cut after its "
+                        "first eos) - the model's cost is cubic in the padded width",
+                        "tokens are int64 ('a long tensor' in the docs); other integer dtypes are not exercised",
                         "zero-width tensors are in the input space only without eos (with eos _lens_from_eos raises)",
                         "the batch dimension of the model is a map over columns; independence of the vectorised code across "
                         "the batch is covered by the correspondence and the single-column metamorphic relation"]
@@ -504,40 +931,91 @@ def run(chk, cases=None):
         chk.count("costs=" + ("uniform" if len(set(c["costs"])) == 1 else "nonuniform"))
         chk.count("eos=" + (eos_kind or ("none" if c["eos"] is None else "given")))
         chk.count("N=%d" % N)
-        chk.count("R=%d" % R)
-        chk.count("H=%d" % H)
+        chk.count("R=%s" % (R if R <= 8 else ">8" if R < 255 else R))
+        chk.count("H=%s" % (H if H <= 8 else ">8" if H < 255 else H))
         chk.count("outcome=" + ("exc:" + out["exc"] if "exc" in out else "ok"))
         chk.count("pairs", N)
         chk.count("empty_ref_pairs", sum(1 for r in c["ref"] if not _cut(r, c["eos"], c["include_eos"])))
         chk.count("empty_hyp_pairs", sum(1 for h in c["hyp"] if not _cut(h, c["eos"], c["include_eos"])))
         chk.count("no_eos_seqs", sum(1 for s in c["ref"] + c["hyp"] if c["eos"] is not None and c["eos"] not in s))
-    res = coq_eval_bools(chk.workdir, IMPORTS, terms)
-    bad = [i for i, ok in enumerate(res) if not ok]
-    chk.extra["model_disagreements"] = len(bad)
+        chk.count("entry=" + (c.get("entry") or "legacy"))
+        chk.count("layout=" + "/".join(c.get("layout") or ("contig", "contig")))
+        for key in ("history", "alias", "ids", "numeric"):
+            if c.get(key):
+                chk.count(key + "=" + str(c[key]))
+        if c.get("scale"):
+            chk.count("scale=%d" % c["scale"])
+        if c["eos"] is not None and c["include_eos"] and N > 1:
+            noe_h = [c["eos"] not in h for h in c["hyp"]]
+            if any(noe_h[m] and any(c["eos"] not in c["ref"][n] and not noe_h[n] for n in range(N) if n != m)
+                   for m in range(N)):
+                chk.count("eos_fixup_interaction(hyp w/o eos + other pair: ref w/o eos, hyp with)")
+        if c["api"] == "prefix" and c["eos"] is not None and c["include_eos"] and any(
+                c["eos"] in h[:-1] for h in c["hyp"]):
+            chk.count("prefix_include_eos_with_eos_before_last_row")
+    # the Coq evaluation runs beside the metamorphic phase; terms that take seconds each get their own shards
+    slow = [i for i, c in enumerate(cases) if c.get("long") or c.get("slow")]
+    fast = [i for i in range(len(cases)) if i not in set(slow)]
+    pool = ThreadPoolExecutor(max_workers=2)
+    fut_fast = pool.submit(coq_eval_bools, chk.workdir, IMPORTS, [terms[i] for i in fast])
+    fut_slow = pool.submit(coq_eval_bools, chk.workdir, IMPORTS, [terms[i] for i in slow], 1, None, 1800, "long")
 
     # metamorphic relations on the implementation (all cases when replaying, a seeded subset otherwise)
     mrng = __import__("random").Random(chk.seed + 1)
     meta_n = 0
     meta_fail = []
+    OLD = ("random", "corpus")
+    NEW = ("eos-mix", "sparse-defaults", "entry-layout", "numeric", "long-ref", "long-hyp")
     for i, c in enumerate(cases):
-        if replaying or chk.tier != "thorough" and streams[i] in ("random", "corpus") or i % (3 if streams[i] != "exhaustive" else 12) == 0:
+        if c.get("long") or c.get("slow") or not _exact_scale(c):
+            continue
+        if streams[i] in NEW and not replaying and i % (8 if chk.tier != "thorough" else 24) != 0:
+            continue
+        if replaying or chk.tier != "thorough" and streams[i] in OLD or i % (3 if streams[i] != "exhaustive" else 12) == 0:
             meta_n += 1
             for what, vc, vo in metamorphic(c, outs[i], mrng):
                 meta_fail.append((i, what, vc, vo))
     chk.extra["metamorphic_cases"] = meta_n
     chk.extra["metamorphic_failures"] = len(meta_fail)
 
+    res = [True] * len(cases)
+    for i, ok in zip(fast, fut_fast.result()):
+        res[i] = ok
+    for i, ok in zip(slow, fut_slow.result()):
+        res[i] = ok
+    pool.shutdown()
+    bad = [i for i, ok in enumerate(res) if not ok]
+    chk.extra["model_disagreements"] = len(bad)
+
     found_concrete = False
-    for i in bad[:4]:
-        case = shrink(cases[i], lambda c: _fails(chk, c), _cands, budget=60)
+    for i in [i for i in bad if cases[i].get("long")][:2]:
+        found_concrete = True
+        chk.report(judge_long(chk, cases[i], outs[i]))
+    bad_small = [i for i in bad if not cases[i].get("long")]
+    # small inputs first: their shrinking is cheap
+    bad_small.sort(key=lambda i: (bool(cases[i].get("slow")), i))
+    for i in bad_small[:4]:
+        if cases[i].get("slow"):
+            if found_concrete:
+                continue
+            case = cases[i]
+        else:
+            case = shrink(cases[i], lambda c: _fails(chk, c), _cands, budget=60)
         out = run_impl(case)
-        rec, spec_ok = judge(chk, case, out)
+        if max(_dims(case)[1:]) > 40:  # Spec.lev is not evaluable there; the model's verdict stands (model = spec proved)
+            rec = {"case": case, "impl": out, "spec_accepts_impl": False, "theorems_at_stake": THEOREMS,
+                   "correspondence": "corr:C01:long-hypothesis batch",
+                   "what": "output differs from the model (= minimum edit cost) on a batch with a very long hypothesis"}
+            spec_ok = False
+        else:
+            rec, spec_ok = judge(chk, case, out)
         if not spec_ok:
             found_concrete = True
             chk.report(rec)
-    if bad and not found_concrete:
-        sres = coq_eval_bools(chk.workdir, IMPORTS, [spec_term(cases[i], outs[i]) for i in bad], tag="specall")
-        hit = [bad[j] for j, ok in enumerate(sres) if not ok]
+    if bad_small and not found_concrete:
+        small = [i for i in bad_small if max(_dims(cases[i])[1:]) <= 40]
+        sres = coq_eval_bools(chk.workdir, IMPORTS, [spec_term(cases[i], outs[i]) for i in small], tag="specall")
+        hit = [small[j] for j, ok in enumerate(sres) if not ok]
         if hit:
             rec, _ = judge(chk, cases[hit[0]], outs[hit[0]])
             chk.report(rec)
